@@ -45,9 +45,9 @@ def setup():
 
     real = _enc.solve_sat
 
-    def recorder(clauses, **kw):
+    def recorder(clauses, *more, **kw):
         if _pass["on"]:
-            return real(clauses, **kw)
+            return real(clauses, *more, **kw)
         _rec["clauses"] = [list(c) for c in clauses]
         _rec["kw"] = kw
         proj = _rec.get("proj")
